@@ -1,3 +1,99 @@
-From Ebml Require Import Base Tools Spec Reader.
-Example C14_ex : ebml_size 127 1 = SUnknown /\ ebml_size 127 2 = SKnown 127.
-Proof. vm_compute. split; reflexivity. Qed.
+(* C14 — recovery after inserted junk resumes at the next tag and loses nothing else.  Statements only.
+   A damaged document [ddoc] (Proofs/Recover.v): the masters open at the insertion point (any depth, known or unknown
+   size), the complete trees f1 before it at that level, the junk, the next tree x and its following siblings f2, and for every
+   open master what still follows inside its parent ([d_rights], innermost first, the last entry being the top level).
+   [undamaged d] is the same document without the junk; its conformance is the only structural hypothesis.
+   PARTIAL: declared paths without global placeholders; "cannot begin a valid tag" is the semantic hypothesis [junk_run]:
+   at the junk's first byte and at each later junk position the header check fails in the reader's state there. *)
+From Ebml Require Import Base Tools Spec Writer Reader Pure Encode Proofs.Tactics Proofs.ReaderIO Proofs.Refine Proofs.PureProofs Proofs.RoundTrip Proofs.Nesting Proofs.Partial Proofs.Recover.
+
+(* the complete run: the tags before the junk unchanged (with the Ends of the masters that are complete there), exactly one
+   error, try_recover() succeeds, then all remaining tags; the premise "the following tag still fits inside every enclosing
+   known-size master after the shift" is [room (d_stk d) ...] *)
+Theorem C14_damaged_run_partial : forall c d, strict c -> c_buffered c = [] -> c_emit_eof c = true -> conf_zdoc c (undamaged d) ->
+  d_junk d <> [] -> wf_bytes (d_junk d) -> (d_levels d <> [] \/ d_f1 d <> []) ->
+  room (d_stk d) (d_off2 d + N.of_nat (length (d_junk d)) + tlen (d_x d)) ->
+  junk_run c (junk_state d) (length (d_junk d)) ->
+  exists e0, p_run c (enc_ddoc d) [RAll; RRecover; RAll] = out_ddoc d e0.
+Proof. exact damaged_run'. Qed.
+
+(* ... and apart from that error and the recovery, the tag sequence is exactly that of the undamaged document *)
+Theorem C14_recovery_loses_nothing_partial : forall c d, strict c -> c_buffered c = [] -> c_emit_eof c = true -> conf_zdoc c (undamaged d) ->
+  d_junk d <> [] -> wf_bytes (d_junk d) -> (d_levels d <> [] \/ d_f1 d <> []) ->
+  room (d_stk d) (d_off2 d + N.of_nat (length (d_junk d)) + tlen (d_x d)) ->
+  junk_run c (junk_state d) (length (d_junk d)) ->
+  out_tags (p_run c (enc_ddoc d) [RAll; RRecover; RAll]) = out_tags (p_run c (enc_zdoc (undamaged d)) [RAll]).
+Proof. exact recovery_loses_nothing'. Qed.
+
+(* the undamaged document, seen from the same position, reads as its items *)
+Theorem C14_undamaged_run_partial : forall c z, strict c -> c_buffered c = [] -> c_emit_eof c = true -> conf_zdoc c z ->
+  p_run c (enc_zdoc z) [RAll] = out_zdoc z.
+Proof. exact zipper_run. Qed.
+
+(* in every case try_recover() never moves backwards and fails only by reporting the end of the input (the buffered reader can
+   additionally report a source I/O error: C05_io_error_surfaces); it never panics (C05_no_panic) *)
+Theorem C14_recover_forward : forall c st, b_off st <= b_off (fst (p_try_recover c st)).
+Proof. exact try_recover_forward. Qed.
+Theorem C14_recover_errors : forall c st e, snd (p_try_recover c st) = Some e -> exists o, e = REof o None None None.
+Proof. exact try_recover_errors. Qed.
+
+(* header checks depend only on the parse fields of the state, so the junk hypothesis is about the document, not about
+   incidental reader state *)
+Theorem C14_header_check_extensional : forall c s1 s2, same_parse s1 s2 -> snd (p_header c s1) = snd (p_header c s2).
+Proof. exact p_header_cong. Qed.
+
+Definition C14_sp : spec :=
+  [ {| e_id := 129; e_ty := DMaster; e_path := [] |}; {| e_id := 16643; e_ty := DMaster; e_path := [PId 129] |};
+    {| e_id := 16642; e_ty := DBinary; e_path := [PId 129; PId 16643] |}; {| e_id := 16641; e_ty := DUInt; e_path := [PId 129] |} ].
+Definition C14_cfg : cfg :=
+  {| c_sp := C14_sp; c_allow_id := false; c_allow_hier := false; c_allow_over := false; c_max := Some 4000000000; c_buffered := [];
+     c_emit_eof := true |}.
+(* Root (known size 15) { UInt 5; <junk FF FE FD>; Parent { Bin [7] }; UInt 6 } *)
+Definition C14_doc : ddoc :=
+  {| d_levels := [ {| lv_f := []; lv_id := 129; lv_sl := 1; lv_size := Some 15 |} ];
+     d_f1 := [RLeaf 16641 (VU 5) [5] 1%nat]; d_junk := [255; 254; 253];
+     d_x := RNode 16643 (Some 1%nat) [RLeaf 16642 (VB [7]) [7] 1%nat]; d_f2 := [RLeaf 16641 (VU 6) [6] 1%nat];
+     d_rights := [ [] ] |}.
+
+Example C14_ex_hyps :
+  strict C14_cfg /\ conf_zdoc C14_cfg (undamaged C14_doc) /\
+  room (d_stk C14_doc) (d_off2 C14_doc + N.of_nat (length (d_junk C14_doc)) + tlen (d_x C14_doc)) /\
+  junk_run C14_cfg (junk_state C14_doc) (length (d_junk C14_doc)).
+Proof.
+  assert (I1 : idok 129) by (exists 1%nat, 1; repeat split; cbn; lia).
+  assert (I2 : idok 16643) by (exists 2%nat, 259; repeat split; cbn; lia).
+  assert (I3 : idok 16642) by (exists 2%nat, 258; repeat split; cbn; lia).
+  assert (I4 : idok 16641) by (exists 2%nat, 257; repeat split; cbn; lia).
+  assert (L1 : forall v, v < 256 -> conf C14_cfg [129] (RLeaf 16641 (VU v) [v] 1%nat)).
+  { intros v Hv. split; [exact I4|]. split; [lia|]. split; [vm_compute; reflexivity|]. split; [repeat constructor; exact Hv|].
+    split; [exists DUInt; split; [reflexivity|split; [discriminate|]]|].
+    - cbn [decodes]. unfold arr_to_u64, from_be, from_be_acc. cbn [length Nat.ltb Nat.leb fold_left]. f_equal; lia.
+    - split; [reflexivity|vm_compute; discriminate]. }
+  assert (L2 : conf C14_cfg [129; 16643] (RLeaf 16642 (VB [7]) [7] 1%nat)).
+  { split; [exact I3|]. split; [lia|]. split; [vm_compute; reflexivity|]. split; [repeat constructor; lia|].
+    split; [exists DBinary; split; [reflexivity|split; [discriminate|reflexivity]]|]. split; [reflexivity|vm_compute; discriminate]. }
+  assert (N1 : conf C14_cfg [129] (RNode 16643 (Some 1%nat) [RLeaf 16642 (VB [7]) [7] 1%nat])).
+  { apply conf_node. split; [exact I2|]. split; [intros sl Hsl; injection Hsl as <-; split; [lia|vm_compute; reflexivity]|].
+    split; [reflexivity|]. split; [reflexivity|]. split; [vm_compute; discriminate|]. constructor; [exact L2|constructor]. }
+  split; [repeat split|]. split; [|split].
+  - split.
+    + cbn [undamaged z_levels z_rights C14_doc d_levels d_f1 d_x d_f2 d_rights hd conf_levels lv_f lv_id lv_sl lv_size].
+      split; [constructor|]. split; [exact I1|]. split; [reflexivity|]. split; [reflexivity|]. split; [split; [lia|vm_compute; reflexivity]|].
+      split; [vm_compute; discriminate|]. split; [|exact I]. intros n Hn. injection Hn as <-. vm_compute. discriminate.
+    + cbn [undamaged z_levels z_rights C14_doc d_levels d_f1 d_x d_f2 d_rights]. apply rights_ok_cons. split.
+      * constructor; [apply L1; lia|constructor; [exact N1|constructor; [apply L1; lia|constructor]]].
+      * split; [vm_compute; repeat constructor; discriminate|]. split; [right; vm_compute; eexists; split; reflexivity|].
+        apply rights_ok_cons. split; [constructor|]. split; [constructor|reflexivity].
+  - vm_compute. repeat constructor. discriminate.
+  - split; [eexists; vm_compute; reflexivity|]. cbn [length Nat.sub junk C14_doc d_junk]. repeat split; eexists; vm_compute; reflexivity.
+Qed.
+
+Example C14_ex_run :
+  enc_ddoc C14_doc = [129; 143; 65; 1; 129; 5; 255; 254; 253; 65; 3; 132; 65; 2; 129; 7; 65; 1; 129; 6] /\
+  p_run C14_cfg (enc_ddoc C14_doc) [RAll; RRecover; RAll] =
+    [OItem (TStart 129) 0; OItem (TElem 16641 (VU 5)) 2; OErr (RInvalidTagId 6 255); ORecOk;
+     OItem (TStart 16643) 9; OItem (TElem 16642 (VB [7])) 12; OItem (TEnd 16643) 9; OItem (TElem 16641 (VU 6)) 16; OItem (TEnd 129) 0; ONone] /\
+  p_run C14_cfg (enc_zdoc (undamaged C14_doc)) [RAll] =
+    [OItem (TStart 129) 0; OItem (TElem 16641 (VU 5)) 2;
+     OItem (TStart 16643) 6; OItem (TElem 16642 (VB [7])) 9; OItem (TEnd 16643) 6; OItem (TElem 16641 (VU 6)) 13; OItem (TEnd 129) 0; ONone].
+Proof. vm_compute. repeat split; reflexivity. Qed.
